@@ -150,6 +150,21 @@ HARNESSES += [
 ]
 
 
+START_REPLACED = ["parse_options", "redirect_init", "redirect_destroy", "setup_input", "process_start", "now"]
+HARNESSES += [
+    {"name": "reproc_start_parent", "props": ["C04", "C05", "C06", "C10", "C12", "C13", "C14", "C02", "C17", "C15", "C08"],
+     "src": "h_reproc_start.c", "contracts": ["public.h"], "includes": ["reproc.c"], "enforce": "reproc_start",
+     "replace": START_REPLACED, "defs": {"SIDE_PARENT": None}, "unwind": 24,
+     "what": "reproc_start, parent side: every option field symbolic, any handle state; parse_options, redirect_init (x3), "
+             "redirect_destroy (x3), setup_input, process_start, now replaced by their contracts; pipe_init and "
+             "pipe_destroy inlined with every OS call fallible"},
+    {"name": "reproc_start_child", "props": ["C14", "C04"],
+     "src": "h_reproc_start.c", "contracts": ["public.h"], "includes": ["reproc.c"], "enforce": "reproc_start",
+     "replace": START_REPLACED, "defs": {"SIDE_CHILD": None}, "unwind": 24, "no_leak_check": True,
+     "what": "reproc_start as seen by the fork-mode child (process_start returns 0 there)"},
+]
+
+
 def api(name, props, what, **kw):
     d = {"name": "reproc_" + name, "props": props, "src": "h_api.c", "contracts": ["public.h"],
          "includes": ["reproc.c"], "enforce": "reproc_" + name, "defs": {"API_" + name: None, "VERIF_MAX_BUF": "(1ul<<40)"},
